@@ -62,6 +62,7 @@ BREAKING = [
     ("send-cancel-without-fault-location", SEND, "        self.prepare_eof(Some(self.config.source_entity_id))", "        self.prepare_eof(None)", {"C10": 1}),
     ("send-cancelled-ack-stops-clock", SEND, "        if self.send_state == SendState::SendEof || self.send_state == SendState::Cancelled {", "        if self.send_state == SendState::SendEof {", {"C03": 1}),
     ("recv-shutdown-keeps-active", RECV, "        self.state = TransactionState::Terminated;\n        self.timer.ack.pause();\n        self.timer.nak.pause();", "        self.timer.ack.pause();\n        self.timer.nak.pause();", {"C03": 1}),
+    ("send-metadata-swapped-names", SEND, "            source_filename: self.metadata.source_filename.clone(),\n            destination_filename: self.metadata.destination_filename.clone(),\n            options:", "            source_filename: self.metadata.destination_filename.clone(),\n            destination_filename: self.metadata.source_filename.clone(),\n            options:", {"C07": 1}),
     ("crc-poly-typo", PDU, "let poly = 0x1021;", "let poly = 0x1012;", {"C15": 1}),
     ("crc-over-reencoding", PDU, "                    let mut temp = received_pdu.header.clone().encode();\n                    temp.extend_from_slice(remaining_msg.as_slice());\n                    temp",
      "                    let mut temp = received_pdu.clone().encode();\n                    temp.truncate(temp.len() - 2);\n                    temp", {"C15": 1}),
